@@ -1,27 +1,27 @@
 //! C08 — not built yet (stub so that the binary links; `./check C08` reports INFRA until replaced).
 use arbitrary::Unstructured;
-use vcore::{{Check, Labels, Plan, Tier, Verdict}};
+use vcore::{Check, Labels, Plan, Tier, Verdict};
 
 pub struct Stub;
 pub const CHECK: Stub = Stub;
-pub fn plan(_t: Tier) -> Plan {{
+pub fn plan(_t: Tier) -> Plan {
     Plan::new(1, 16)
-}}
-impl Check for Stub {{
+}
+impl Check for Stub {
     type Case = u8;
-    fn id(&self) -> &'static str {{
+    fn id(&self) -> &'static str {
         "C08"
-    }}
-    fn generate(&self, _u: &mut Unstructured, _tier: Tier) -> Option<u8> {{
+    }
+    fn generate(&self, _u: &mut Unstructured, _tier: Tier) -> Option<u8> {
         None
-    }}
-    fn evaluate(&self, _case: &u8, _labels: &mut Labels) -> Verdict {{
+    }
+    fn evaluate(&self, _case: &u8, _labels: &mut Labels) -> Verdict {
         Verdict::Discard("stub".into())
-    }}
-    fn rule(&self) -> String {{
+    }
+    fn rule(&self) -> String {
         "stub".into()
-    }}
-    fn health(&self, _s: &vcore::Stats) -> Result<(), String> {{
+    }
+    fn health(&self, _s: &vcore::Stats) -> Result<(), String> {
         Err("check not built yet".into())
-    }}
-}}
+    }
+}
